@@ -379,6 +379,12 @@ class IkeSa(object):
             self.log_error('Received an unprotected message for an IKE_SA that has keys. Ignoring')
             return None
 
+        # IKE_SA_INIT is the only exchange that travels in the clear: a protected message of that type is not valid
+        # (answering it would produce a cleartext IKE_SA_INIT response from an IKE_SA that has keys)
+        if message.is_protected and message.exchange_type == Message.Exchange.IKE_SA_INIT:
+            self.log_error('Received a protected IKE_SA_INIT message. Ignoring')
+            return None
+
         # receiving any kind of message from the peer resets the DPD timer
         self.start_dpd_at = time.time() + self.configuration.dpd
         if message.is_request:
